@@ -14,3 +14,4 @@ open LhasaV.Props.C13
 #print axioms work_bounded
 #print axioms next_work_present
 #print axioms decoders_present
+#print axioms tool_loops_end_in_fuel
